@@ -29,6 +29,28 @@ def canonicalise(tree: ast.AST) -> None:
       not not X                ->  X
       not (a == b) / (a in b) / (a is b) and their negative forms -> the single comparison
     Line numbers stay those of the original nodes."""
+    # x: T = v  (a local, inside a function)   ->   x: T ; x = v      (the declaration keeps the type for the
+    # type evaluation, the rules see a plain assignment whether or not the local is annotated)
+    for fn_ in ast.walk(tree):
+        if not isinstance(fn_, (ast.FunctionDef, ast.AsyncFunctionDef)):
+            continue
+        for node in ast.walk(fn_):
+            for fld in ("body", "orelse", "finalbody"):
+                seq = getattr(node, fld, None)
+                if not (isinstance(seq, list) and seq and isinstance(seq[0], ast.stmt)) or isinstance(node, ast.ClassDef):
+                    continue
+                i = 0
+                while i < len(seq):
+                    st = seq[i]
+                    if isinstance(st, ast.AnnAssign) and st.value is not None and isinstance(st.target, ast.Name) and st.simple:
+                        decl = ast.copy_location(ast.AnnAssign(target=ast.Name(id=st.target.id, ctx=ast.Store()), annotation=st.annotation, value=None, simple=1), st)
+                        asg = ast.copy_location(ast.Assign(targets=[ast.Name(id=st.target.id, ctx=ast.Store())], value=st.value, lineno=st.lineno), st)
+                        ast.fix_missing_locations(decl)
+                        ast.fix_missing_locations(asg)
+                        seq[i:i + 1] = [decl, asg]
+                        i += 2
+                        continue
+                    i += 1
     # T[k] = A if c else B   ->   if c: T[k] = A else: T[k] = B     (subscript stores only)
     for node in ast.walk(tree):
         for fld in ("body", "orelse", "finalbody"):
